@@ -13,6 +13,7 @@ Proof.
     destruct cur as [[| |]|]; simpl; auto;
     destruct (existsb _ _); simpl; auto;
     destruct (find_seg _ _ _ _) as [[[| |]|]|]; simpl; auto;
+    try destruct (Nat.ltb _ _); simpl; auto;
     destruct (conv_keys _ _); simpl; auto.
 Qed.
 
@@ -137,6 +138,7 @@ Proof.
   destruct cur as [[| |]|]; try discriminate;
     destruct (existsb _ _); try discriminate;
     destruct (find_seg _ _ _ _) as [[[| |]|]|]; try discriminate;
+    simpl; try destruct (Nat.ltb _ _); try discriminate;
     destruct (conv_keys _ _); try discriminate;
     intro H; inversion H; subst; eauto 10.
 Qed.
